@@ -1200,6 +1200,9 @@ func (t *trzszTransfer) recvFileSize(progress progressCallback) (int64, error) {
 	if err != nil {
 		return 0, err
 	}
+	if size < 0 {
+		return 0, simpleTrzszError("Invalid file size: %d", size)
+	}
 	if err := t.sendInteger("SUCC", size); err != nil {
 		return 0, err
 	}
